@@ -26,3 +26,6 @@ CFG = {'harness': 'det',
 
 # translator plugins this property needs besides the board tables of tools/gen.py (none)
 CFG["gen_plugins"] = []
+
+# a run with fewer cases than half of what the quick tier generates today would be a (partly) vacuous differential
+CFG["min_cases"] = 3057
